@@ -401,6 +401,12 @@ def collision_table(R, ctx):
         sib_empty = next((v for a, v in r.cond if 'is_empty(' in a and 'collect#' in a), None)
         # `match siblings.iter().max() { None => .., Some(latest) => .. }` examines the same fact
         mx = next((v for a, v in r.cond if a.startswith('variant(') and re.search(r'Iterator>?::max#', a) and 'collect#' in r.long(a)), None)
+        # any other reduction over the listed files (max_by / last / reduce on an iterator chain without an intermediate vector) examines the siblings too, but
+        # in a form these rows do not interpret: not a deviation, the check says that it cannot decide this form
+        other_red = [a for a, v in r.cond if re.search(r'Iterator>?::(max_by|max_by_key|last|reduce|fold|min_by|min_by_key)#', a) and 'list_of_files#' in r.long(a)]
+        if mx is None and other_red:
+            red_name = re.search(r'Iterator>?::(\w+)#', other_red[0]).group(1)
+            raise CheckError(f"R06.4: the restart siblings are examined through {red_name}() on an iterator chain - form not recognised by the collision table")
         if mx is not None:
             if sib_empty is not None and sib_empty != (mx == 'None'):
                 continue            # infeasible: is_empty() and max() of the same vector disagree
